@@ -17,24 +17,27 @@ from . import common
 
 META = dict(
     level="model_checking",
-    technique="bounded symbolic execution (z3, path forking) of the real kernel source",
+    technique="bounded symbolic execution (z3, path forking) of the real kernel source: over the reals (all configurations) and in IEEE binary32/binary64 arithmetic (z3 FloatingPoint theory, ieee configurations)",
     design_ref="section 4 / C07",
     bounds=dict(
         quick="size vectors (1,1),(2,1),(0,2),(2,2),(3,2),(1,1,1),(2,1,1),(2,0,1); scaled buffer capacity C0 in {2,3,4,5} on (2,2),(3,1); "
-              "all pair values >= 0 and delta_empty > 0 symbolic reals",
+              "all pair values >= 0 and delta_empty > 0 symbolic reals; IEEE mode: (2,1),(1,1,1) with every pair value a symbolic binary32 in [0, 2^22] and delta_empty a symbolic binary32 in (0, 1024]",
         thorough="+ (3,3),(2,2,1),(1,1,1,1),(4,2); scaled capacity C0 in {1,2,3,5} on (3,2),(2,2,1); semi-symbolic (2,2,2) and (1,1,1,1,1); "
-                 "real capacity 10000 crossed concretely on the real build (2x125 units) as translator validation"),
-    outside="more than 4 fully symbolic annotators or > 12 symbolic branch decisions per run; float32 rounding of sums (real arithmetic); "
+                 "real capacity 10000 crossed concretely on the real build (2x125 units) as translator validation; IEEE mode: + (2,2), and (1,1,1,1),(1,1,1,1,1) with concrete far-apart pairs"),
+    outside="more than 4 fully symbolic annotators or > 12 symbolic branch decisions per run; float32 rounding of sums outside the IEEE configurations; "
             "int16 index overflow above 32767 units per annotator",
     stubs=["numba.njit = identity (kernel runs as plain Python)", "np float arrays = object arrays of z3 reals",
            "np.empty float elements = arbitrary values (fresh symbols)", "d_mat = one free symbol >= 0 per unit pair (any symmetric dissimilarity)"],
-    assumptions=["real-number arithmetic instead of float32", "d_mat symmetric, d_mat >= 0, delta_empty > 0",
+    assumptions=["real-number arithmetic instead of float32 (all but the ieee configurations)", "ieee configurations: round-to-nearest-even, numba promotion int64 (op) float32 -> float64, "
+                 "explicit-signature arguments converted on entry; validated on 70 knife-edge inputs against the real numba kernel each run", "d_mat symmetric, d_mat >= 0, delta_empty > 0",
                  "scaled-capacity sub-check substitutes the literal in `chunk_size = 10000` only"],
     cfg_budget_s=dict(quick=150, thorough=900),
     claim="For every size vector in the bound, all non-negative real pair dissimilarities and every delta_empty > 0 (solver-decided on every path of "
           "the real kernel source): the candidates are pairwise distinct, never the all-empty tuple, a tuple is a candidate iff its pair sum is <= "
           "C(n,2)*n*delta_empty, and each carries sum/C(n,2); the same with the buffer capacity scaled down so that growth, regrowth and "
-          "'full at the last tuple' occur inside the bound. Nothing is claimed outside the bound.",
+          "'full at the last tuple' occur inside the bound. In IEEE arithmetic (ieee configurations, numba's width rules: binary32 pair values and delta_empty, binary64 "
+          "running sum and cut): candidates are distinct, the all-empty tuple is not one, every tuple leaving one unit alone IS one, and a pruned tuple has "
+          "at least one pair costing more than delta_empty - for every binary32 input in the bound. Nothing is claimed outside the bound.",
     trusted="z3; the symbolic build (numba.njit = identity, float arrays as object arrays) is validated on every run against the real numba build on "
             "concrete inputs, including a 2x140-unit continuum that crosses the real 10000/15000 buffer boundaries; real arithmetic instead of float32",
 )
